@@ -199,7 +199,7 @@ def memberStep (e : Endian) (all : List Member) (n : String) (t : Ty) (k : MKind
           | .limited _ l => some l
           | _ => none
         if (match lim with | some l => decide (cnt > l) | none => false) then (.fail rs1, pos1)
-        else if cnt > remaining size pos1 then (.fail rs1, pos1)
+        else if cnt > remaining size pos1 / resizeElem n all then (.fail rs1, pos1)
         else if cnt > resizeLimit then (.throw (cnt :: rs1), pos1)
         else
           let bound := all.filterMap (fun m => if m.kind.sizer? = some n then some (m.name, cnt) else none)
@@ -287,11 +287,11 @@ theorem padStep_good (padding : Int) (size pos : Nat) (rs : List Nat) (hpos : po
     · exact advance_good _ _ _ _ hpos
     · exact ⟨Nat.le_refl _, hpos, Ext.refl _ _ _ _⟩
 
-theorem sizerTail_good {α : Type} (b : Bool) (cnt size pos pos1 : Nat) (rs rs1 : List Nat) (a : α)
+theorem sizerTail_good {α : Type} (b : Bool) (cnt el size pos pos1 : Nat) (rs rs1 : List Nat) (a : α)
     (ha : pos ≤ pos1) (hb : pos1 ≤ size) (hc : Ext true size pos rs rs1) :
     Good size pos rs
       (if b = true then ((DRes.fail rs1 : DRes α), pos1)
-       else if cnt > remaining size pos1 then (.fail rs1, pos1)
+       else if cnt > remaining size pos1 / el then (.fail rs1, pos1)
        else if cnt > resizeLimit then (.throw (cnt :: rs1), pos1)
        else (.ok a pos1 (cnt :: rs1), pos1)).1 := by
   split
@@ -300,6 +300,7 @@ theorem sizerTail_good {α : Type} (b : Bool) (cnt size pos pos1 : Nat) (rs rs1 
     · exact hc
     · rename_i hrem
       rw [remaining_of_le hb] at hrem
+      have hdiv : (size - pos1) / el ≤ size - pos1 := Nat.div_le_self _ _
       split
       · rename_i hl
         exact hc.trans (Nat.le_refl _) (Ext.cons _ (by omega) (by simp))
@@ -323,7 +324,7 @@ theorem memberStep_good (e : Endian) (all : List Member) (n : String) (t : Ty) (
         rw [hd] at h1
         obtain ⟨ha, hb, hc⟩ := h1
         simp only
-        exact sizerTail_good _ _ _ _ _ _ _ _ ha hb hc
+        exact sizerTail_good _ _ _ _ _ _ _ _ _ ha hb hc
       | fail rs1 => rw [hd] at h1; exact h1
       | fault => rw [hd] at h1; exact h1
       | throw rs1 => rw [hd] at h1; exact h1
@@ -643,8 +644,750 @@ theorem decode_resizes_bounded (t : Ty) (data : Bytes) (e : Endian) :
   have := hb n hn
   exact ⟨by omega, this.2⟩
 
+/-! ## the resize requests fit in BYTES (stronger than `decode_resizes_bounded`)
+
+  `do_decode_resize` refuses a counter `cnt` when `cnt > (end - pos) / elem`, `elem` being the fixed wire size of the
+  element type of the array bound to the counter (1 for dynamic elements): `resizeElem`.  So every request it lets
+  through - also the one that ends in `length_error`/`bad_alloc` - satisfies `cnt * elem ≤ end - pos`.  The greedy
+  `n = (end - pos) / size` satisfies the same with `elem = size`.
+
+  * local: `memberStep_sizer_ok_fits`, `memberStep_sizer_throw_fits`, `memberStep_sizer_fail_log` (the sizer statement
+    of `decMs`, see `decMs_cons`), for every struct, counter, position and byte string;
+  * global: the log only records the counts, so the element size belonging to an entry is given as "one of the
+    element sizes that occur in the schema tree" (`resizeElems t`): `decTy_resizes_fit`, `decode_resizes_fit`;
+    corollary `decode_resizes_fit_min`: if every resizable array of the schema has elements of at least `w` wire
+    bytes, every request `n` has `n * w ≤ data.length`.  (`w = 1` is the old theorem.) -/
+
+/-- `codec_traits<T>::size > 0 ? size_t(codec_traits<T>::size) : 1` -/
+def elemSz (t : Ty) : Nat := if codecSize t > 0 then (codecSize t).toNat else 1
+
+theorem one_le_elemSz (t : Ty) : 1 ≤ elemSz t := by
+  unfold elemSz
+  split <;> omega
+
+theorem resizeElem_eq (n : String) (all : List Member) :
+    resizeElem n all = match all.find? (fun m => m.kind.sizer? = some n) with
+      | some m => elemSz m.ty
+      | none => 1 := rfl
+
+theorem one_le_resizeElem (n : String) (all : List Member) : 1 ≤ resizeElem n all := by
+  rw [resizeElem_eq]
+  split
+  · exact one_le_elemSz _
+  · exact Nat.le_refl _
+
+/-! ### the local fact: the sizer statement -/
+
+theorem decScalar_ok_inv (e : Endian) (k : Nat) (signed : Bool) (data : Bytes) (pos : Nat) (rs : List Nat)
+    (c : Int) (pos1 : Nat) (rs1 : List Nat) (hpos : pos ≤ data.length)
+    (h : decScalar e k signed data pos rs = .ok c pos1 rs1) :
+    pos1 = pos + k ∧ pos1 ≤ data.length ∧ rs1 = rs := by
+  unfold decScalar at h
+  rw [remaining_of_le hpos] at h
+  split at h
+  · cases h
+  · rename_i hk
+    have hfit : pos + k ≤ data.length := by omega
+    simp only [readScalar, hfit, if_true] at h
+    injection h with _ h2 h3
+    exact ⟨h2.symm, by omega, h3.symm⟩
+
+theorem decScalar_log (e : Endian) (k : Nat) (signed : Bool) (data : Bytes) (pos : Nat) (rs : List Nat)
+    (hpos : pos ≤ data.length) :
+    DRes.resizes rs (decScalar e k signed data pos rs) = rs := by
+  unfold decScalar
+  rw [remaining_of_le hpos]
+  split
+  · rfl
+  · rename_i hk
+    have hfit : pos + k ≤ data.length := by omega
+    simp only [readScalar, hfit, if_true]
+    rfl
+
+/-- the three ways out of the checks of `do_decode_resize` -/
+theorem sizerTail_inv {α : Type} (b : Bool) (cnt el size pos1 : Nat) (rs1 : List Nat) (a : α)
+    (hel : 1 ≤ el) (hb : pos1 ≤ size) (r : DRes α) (p : Nat)
+    (h : (if b = true then ((DRes.fail rs1 : DRes α), pos1)
+       else if cnt > remaining size pos1 / el then (.fail rs1, pos1)
+       else if cnt > resizeLimit then (.throw (cnt :: rs1), pos1)
+       else (.ok a pos1 (cnt :: rs1), pos1)) = (r, p)) :
+    p = pos1 ∧
+    (r = .fail rs1 ∨
+     (cnt * el ≤ size - pos1 ∧ resizeLimit < cnt ∧ r = .throw (cnt :: rs1)) ∨
+     (cnt * el ≤ size - pos1 ∧ cnt ≤ resizeLimit ∧ r = .ok a pos1 (cnt :: rs1))) := by
+  rw [remaining_of_le hb] at h
+  split at h
+  · injection h with h1 h2
+    exact ⟨h2.symm, Or.inl h1.symm⟩
+  · split at h
+    · injection h with h1 h2
+      exact ⟨h2.symm, Or.inl h1.symm⟩
+    · rename_i hrem
+      have hfit : cnt * el ≤ size - pos1 := (Nat.le_div_iff_mul_le (by omega)).1 (by omega)
+      split at h
+      · rename_i hl
+        injection h with h1 h2
+        exact ⟨h2.symm, Or.inr (Or.inl ⟨hfit, hl, h1.symm⟩)⟩
+      · rename_i hl
+        injection h with h1 h2
+        exact ⟨h2.symm, Or.inr (Or.inr ⟨hfit, by omega, h1.symm⟩)⟩
+
+/-- everything the sizer statement `do_decode_resize<E, CT>(x.b, pos, end[, max])` of a struct can do, started inside
+    the buffer: it returns false without a request, or it made exactly one request `cnt`, with
+    `cnt * resizeElem n all ≤` the bytes left after the counter, which either threw (`cnt > resizeLimit`) or went
+    through; `p` (where the C++ `pos` is left) is the position after the counter in the last two cases -/
+theorem memberStep_sizer_inv (e : Endian) (all : List Member) (n : String) (t : Ty) (msize : Nat)
+    (data : Bytes) (pos : Nat) (rs : List Nat) (lens : List (String × Nat))
+    (elem : Nat → List Nat → DRes Val × Nat) (hs : isSizer n all = true) (hpos : pos ≤ data.length)
+    (r : DRes (Val × List (String × Nat))) (p : Nat)
+    (h : memberStep e all n t .plain msize data pos rs lens elem = (r, p)) :
+    r = .fail rs ∨
+    ∃ cnt, pos ≤ p ∧ p ≤ data.length ∧ cnt * resizeElem n all ≤ data.length - p ∧
+      ((resizeLimit < cnt ∧ r = .throw (cnt :: rs)) ∨
+       (cnt ≤ resizeLimit ∧ ∃ lens', r = .ok (Val.sizer, lens') p (cnt :: rs))) := by
+  unfold memberStep at h
+  simp only [hs, if_true] at h
+  cases hd : decScalar e (sizerPrimOf n all).size (sizerPrimOf n all).isSigned data pos rs with
+  | ok c pos1 rs1 =>
+    obtain ⟨h1, h2, h3⟩ := decScalar_ok_inv _ _ _ _ _ _ _ _ _ hpos hd
+    subst h3
+    rw [hd] at h
+    simp only at h
+    obtain ⟨hp, hr⟩ := sizerTail_inv _ _ _ _ _ _ _ (one_le_resizeElem n all) h2 _ _ h
+    subst hp
+    rcases hr with hr | ⟨hfit, hl, hr⟩ | ⟨hfit, hl, hr⟩
+    · exact Or.inl hr
+    · exact Or.inr ⟨_, by omega, h2, hfit, Or.inl ⟨hl, hr⟩⟩
+    · exact Or.inr ⟨_, by omega, h2, hfit, Or.inr ⟨hl, _, hr⟩⟩
+  | fail rs1 =>
+    have hl := decScalar_log e (sizerPrimOf n all).size (sizerPrimOf n all).isSigned data pos rs hpos
+    rw [hd] at h hl
+    simp only [DRes.resizes] at hl
+    subst hl
+    injection h with h1 h2
+    exact Or.inl h1.symm
+  | fault =>
+    exfalso
+    have := decScalar_good e (sizerPrimOf n all).size (sizerPrimOf n all).isSigned data pos rs hpos
+    rw [hd] at this
+    exact this
+  | throw rs1 =>
+    exfalso
+    unfold decScalar at hd
+    split at hd
+    · cases hd
+    · split at hd <;> cases hd
+
+/-- LOCAL, accepted request: whenever the sizer statement of `decMs` returns `.ok` (having pushed `cnt` on the log), the
+    request fits in bytes: `cnt * resizeElem n all ≤` the bytes between the end of the counter and the end of the
+    input -/
+theorem memberStep_sizer_ok_fits (e : Endian) (all : List Member) (n : String) (t : Ty) (msize : Nat)
+    (data : Bytes) (pos : Nat) (rs : List Nat) (lens : List (String × Nat))
+    (elem : Nat → List Nat → DRes Val × Nat) (hs : isSizer n all = true) (hpos : pos ≤ data.length)
+    (v : Val) (lens' : List (String × Nat)) (pos1 : Nat) (rs1 : List Nat) (p : Nat)
+    (h : memberStep e all n t .plain msize data pos rs lens elem = (.ok (v, lens') pos1 rs1, p)) :
+    ∃ cnt, rs1 = cnt :: rs ∧ pos ≤ pos1 ∧ pos1 ≤ data.length ∧
+      cnt * resizeElem n all ≤ data.length - pos1 ∧ cnt ≤ resizeLimit := by
+  rcases memberStep_sizer_inv e all n t msize data pos rs lens elem hs hpos _ _ h with hr | ⟨cnt, h1, h2, h3, hr⟩
+  · cases hr
+  · rcases hr with ⟨_, hr⟩ | ⟨hl, lens'', hr⟩
+    · cases hr
+    · injection hr with _ hq hrs
+      subst hq
+      exact ⟨cnt, hrs, h1, h2, h3, hl⟩
+
+/-- LOCAL, request that throws (`std::length_error`/`bad_alloc`): it too was let through by the byte check -/
+theorem memberStep_sizer_throw_fits (e : Endian) (all : List Member) (n : String) (t : Ty) (msize : Nat)
+    (data : Bytes) (pos : Nat) (rs : List Nat) (lens : List (String × Nat))
+    (elem : Nat → List Nat → DRes Val × Nat) (hs : isSizer n all = true) (hpos : pos ≤ data.length)
+    (rs1 : List Nat) (p : Nat)
+    (h : memberStep e all n t .plain msize data pos rs lens elem = (.throw rs1, p)) :
+    ∃ cnt, rs1 = cnt :: rs ∧ pos ≤ p ∧ p ≤ data.length ∧ cnt * resizeElem n all ≤ data.length - p := by
+  rcases memberStep_sizer_inv e all n t msize data pos rs lens elem hs hpos _ _ h with hr | ⟨cnt, h1, h2, h3, hr⟩
+  · cases hr
+  · rcases hr with ⟨_, hr⟩ | ⟨hl, lens'', hr⟩
+    · injection hr with hrs
+      exact ⟨cnt, hrs, h1, h2, h3⟩
+    · cases hr
+
+/-- LOCAL, `return false`: no request was made -/
+theorem memberStep_sizer_fail_log (e : Endian) (all : List Member) (n : String) (t : Ty) (msize : Nat)
+    (data : Bytes) (pos : Nat) (rs : List Nat) (lens : List (String × Nat))
+    (elem : Nat → List Nat → DRes Val × Nat) (hs : isSizer n all = true) (hpos : pos ≤ data.length)
+    (rs1 : List Nat) (p : Nat)
+    (h : memberStep e all n t .plain msize data pos rs lens elem = (.fail rs1, p)) : rs1 = rs := by
+  rcases memberStep_sizer_inv e all n t msize data pos rs lens elem hs hpos _ _ h with hr | ⟨cnt, h1, h2, h3, hr⟩
+  · injection hr with hr
+  · rcases hr with ⟨_, hr⟩ | ⟨hl, lens'', hr⟩ <;> cases hr
+
+/-- LOCAL, at the level of `decMs` itself: when the statements of a struct from a counter member on succeed, the log
+    is `later ++ cnt :: rs` where `cnt` is the counter's request, made at `pos1` (just after the counter), and
+    `cnt * resizeElem n all` bytes were there -/
+theorem decMs_sizer_ok_fits (e : Endian) (all : List Member) (n : String) (t : Ty) (r : List Member)
+    (msize a : Nat) (padding : Int) (ls : List (Nat × Nat × Int)) (data : Bytes) (pos : Nat)
+    (rs : List Nat) (lens : List (String × Nat)) (hs : isSizer n all = true) (hpos : pos ≤ data.length)
+    (vs : List Val) (pos' : Nat) (rs' : List Nat) (p : Nat)
+    (h : decMs e all (.mk n t .plain :: r) ((msize, a, padding) :: ls) data pos rs lens = (.ok vs pos' rs', p)) :
+    ∃ cnt pos1 later, rs' = later ++ cnt :: rs ∧ pos ≤ pos1 ∧ pos1 ≤ pos' ∧ pos' ≤ data.length ∧
+      cnt * resizeElem n all ≤ data.length - pos1 ∧ cnt ≤ resizeLimit := by
+  rw [decMs_cons] at h
+  cases hm : memberStep e all n t .plain msize data pos rs lens (fun q rs' => decTy e t data q rs') with
+  | mk x p0 =>
+    rw [hm] at h
+    cases x with
+    | ok vl pos1 rs1 =>
+      obtain ⟨v, lens'⟩ := vl
+      obtain ⟨cnt, hrs1, h1, h2, h3, h4⟩ :=
+        memberStep_sizer_ok_fits e all n t msize data pos rs lens _ hs hpos v lens' pos1 rs1 p0 hm
+      simp only at h
+      have hg2 := padStep_good padding data.length pos1 rs1 h2
+      cases hp : padStep padding data.length pos1 rs1 with
+      | ok u pos2 rs2 =>
+        rw [hp] at h hg2
+        obtain ⟨ha2, hb2, new2, e2, _⟩ := hg2
+        simp only at h
+        have hg3 := decMs_good e all r ls data pos2 rs2 lens' hb2
+        cases hd3 : decMs e all r ls data pos2 rs2 lens' with
+        | mk y p3 =>
+          rw [hd3] at h hg3
+          cases y with
+          | ok vs3 pos3 rs3 =>
+            obtain ⟨ha3, hb3, new3, e3, _⟩ := hg3
+            simp only at h
+            injection h with h5 _
+            injection h5 with _ h6 h7
+            subst h6 h7
+            exact ⟨cnt, pos1, new3 ++ new2, by simp [e3, e2, hrs1], h1, by omega, hb3, h3, h4⟩
+          | fail rs3 => simp at h
+          | fault => simp at h
+          | throw rs3 => simp at h
+      | fail rs2 => rw [hp] at h; simp at h
+      | fault => rw [hp] at h; simp at h
+      | throw rs2 => rw [hp] at h; simp at h
+    | fail rs1 => simp at h
+    | fault => simp at h
+    | throw rs1 => simp at h
+
+/-! ### the global fact: the invariant with element sizes -/
+
+/- the element sizes `do_decode_resize` / `decoder_greedy` divide by, anywhere in the schema tree -/
+mutual
+  def resizeElems : Ty → List Nat
+    | .struct _ ms => resizeElemsMs ms ms
+    | .union _ arms => resizeElemsArms arms
+    | _ => []
+  def resizeElemsMs (all : List Member) : List Member → List Nat
+    | [] => []
+    | .mk n t k :: r =>
+      (match k with
+       | .plain => if isSizer n all then [resizeElem n all] else []
+       | .greedy => if codecSize t ≥ 0 then [elemSz t] else []
+       | _ => []) ++ resizeElems t ++ resizeElemsMs all r
+  def resizeElemsArms : List Arm → List Nat
+    | [] => []
+    | .mk _ _ t :: r => resizeElems t ++ resizeElemsArms r
+end
+
+/-- the resize log `rs'` is `rs` with new entries pushed in front, each of which, multiplied by an element size
+    allowed by `S`, is at most `size - pos` -/
+def ExtS (S : Nat → Prop) (size pos : Nat) (rs rs' : List Nat) : Prop :=
+  ∃ new, rs' = new ++ rs ∧ ∀ n ∈ new, ∃ el, S el ∧ n * el ≤ size - pos
+
+def GoodS {α : Type} (S : Nat → Prop) (size pos : Nat) (rs : List Nat) : DRes α → Prop
+  | .ok _ pos' rs' => pos ≤ pos' ∧ pos' ≤ size ∧ ExtS S size pos rs rs'
+  | .fail rs' => ExtS S size pos rs rs'
+  | .fault => False
+  | .throw rs' => ExtS S size pos rs rs'
+
+theorem ExtS.refl (S : Nat → Prop) (size pos : Nat) (rs : List Nat) : ExtS S size pos rs rs :=
+  ⟨[], by simp, by simp⟩
+
+theorem ExtS.cons {S : Nat → Prop} {size pos n : Nat} (rs : List Nat) (el : Nat) (hS : S el)
+    (h : n * el ≤ size - pos) : ExtS S size pos rs (n :: rs) :=
+  ⟨[n], by simp, by intro m hm; simp at hm; subst hm; exact ⟨el, hS, h⟩⟩
+
+theorem ExtS.trans {S : Nat → Prop} {size pos pos1 : Nat} {rs rs1 rs2 : List Nat}
+    (h1 : ExtS S size pos rs rs1) (hp : pos ≤ pos1) (h2 : ExtS S size pos1 rs1 rs2) :
+    ExtS S size pos rs rs2 := by
+  obtain ⟨n1, e1, b1⟩ := h1
+  obtain ⟨n2, e2, b2⟩ := h2
+  refine ⟨n2 ++ n1, by simp [e1, e2], ?_⟩
+  intro n hn
+  rcases List.mem_append.1 hn with h | h
+  · obtain ⟨el, hs, hb⟩ := b2 n h
+    exact ⟨el, hs, by omega⟩
+  · exact b1 n h
+
+theorem GoodS.mono {α : Type} {S : Nat → Prop} {size pos pos1 : Nat} {rs rs1 : List Nat} {r : DRes α}
+    (hp : pos ≤ pos1) (hx : ExtS S size pos rs rs1) (h : GoodS S size pos1 rs1 r) : GoodS S size pos rs r := by
+  cases r with
+  | ok a p' rs' =>
+    obtain ⟨h1, h2, h3⟩ := h
+    exact ⟨by omega, h2, hx.trans hp h3⟩
+  | fail rs' => exact hx.trans hp h
+  | fault => exact h
+  | throw rs' => exact hx.trans hp h
+
+/-- a step that does not touch the log -/
+theorem GoodS.of_good {α : Type} (S : Nat → Prop) {size pos : Nat} {rs : List Nat} {r : DRes α}
+    (h : Good size pos rs r) (hl : DRes.resizes rs r = rs) : GoodS S size pos rs r := by
+  cases r with
+  | ok a p' rs' =>
+    simp only [DRes.resizes] at hl; subst hl
+    exact ⟨h.1, h.2.1, ExtS.refl _ _ _ _⟩
+  | fail rs' => simp only [DRes.resizes] at hl; subst hl; exact ExtS.refl _ _ _ _
+  | fault => exact h
+  | throw rs' => simp only [DRes.resizes] at hl; subst hl; exact ExtS.refl _ _ _ _
+
+theorem decScalar_goodS (S : Nat → Prop) (e : Endian) (k : Nat) (signed : Bool) (data : Bytes) (pos : Nat)
+    (rs : List Nat) (hpos : pos ≤ data.length) : GoodS S data.length pos rs (decScalar e k signed data pos rs) :=
+  GoodS.of_good S (decScalar_good e k signed data pos rs hpos) (decScalar_log e k signed data pos rs hpos)
+
+theorem advance_goodS (S : Nat → Prop) (n size pos : Nat) (rs : List Nat) (hpos : pos ≤ size) :
+    GoodS S size pos rs (advance n size pos rs) := by
+  refine GoodS.of_good S (advance_good n size pos rs hpos) ?_
+  unfold advance
+  split <;> rfl
+
+theorem alignStep_goodS (S : Nat → Prop) (a size pos : Nat) (rs : List Nat) :
+    GoodS S size pos rs (alignStep a size pos rs) := by
+  refine GoodS.of_good S (alignStep_good a size pos rs) ?_
+  unfold alignStep
+  simp only
+  split <;> rfl
+
+theorem padStep_goodS (S : Nat → Prop) (padding : Int) (size pos : Nat) (rs : List Nat) (hpos : pos ≤ size) :
+    GoodS S size pos rs (padStep padding size pos rs) := by
+  unfold padStep
+  split
+  · exact alignStep_goodS _ _ _ _ _
+  · split
+    · exact advance_goodS _ _ _ _ _ hpos
+    · exact ⟨Nat.le_refl _, hpos, ExtS.refl _ _ _ _⟩
+
+theorem retag_goodS {α β : Type} {S : Nat → Prop} {size pos : Nat} {rs : List Nat} (r : DRes α × Nat) (g : α → β)
+    (h : GoodS S size pos rs r.1) : GoodS S size pos rs (retag r g).1 := by
+  obtain ⟨r, p⟩ := r
+  cases r <;> exact h
+
+theorem bind_goodS {α β : Type} {S : Nat → Prop} {size pos : Nat} {rs : List Nat} (r : DRes α)
+    (f : α → Nat → List Nat → DRes β) (h : GoodS S size pos rs r)
+    (hf : ∀ a pos1 rs1, pos1 ≤ size → GoodS S size pos1 rs1 (f a pos1 rs1)) :
+    GoodS S size pos rs (r.bind f) := by
+  cases r with
+  | ok a p' rs' =>
+    obtain ⟨h1, h2, h3⟩ := h
+    exact GoodS.mono h1 h3 (hf a p' rs' h2)
+  | fail rs' => exact h
+  | fault => exact h
+  | throw rs' => exact h
+
+theorem decN_goodS (S : Nat → Prop) (f : Nat → List Nat → DRes Val × Nat) (size : Nat)
+    (hf : ∀ q rs', q ≤ size → GoodS S size q rs' (f q rs').1) :
+    ∀ (n pos : Nat) (rs : List Nat), pos ≤ size → GoodS S size pos rs (decN f n pos rs).1
+  | 0, pos, rs, hpos => by
+    simp only [decN]
+    exact ⟨Nat.le_refl _, hpos, ExtS.refl _ _ _ _⟩
+  | n + 1, pos, rs, hpos => by
+    have h1 := hf pos rs hpos
+    simp only [decN]
+    cases hfp : f pos rs with
+    | mk r p =>
+      rw [hfp] at h1
+      cases r with
+      | ok v pos1 rs1 =>
+        obtain ⟨ha, hb, hc⟩ := h1
+        have h2 := decN_goodS S f size hf n pos1 rs1 hb
+        simp only
+        cases hdn : decN f n pos1 rs1 with
+        | mk r2 p2 =>
+          rw [hdn] at h2
+          cases r2 with
+          | ok vs pos2 rs2 =>
+            obtain ⟨ha2, hb2, hc2⟩ := h2
+            exact ⟨by omega, hb2, hc.trans ha hc2⟩
+          | fail rs2 => exact hc.trans ha h2
+          | fault => exact h2
+          | throw rs2 => exact hc.trans ha h2
+      | fail rs1 => exact h1
+      | fault => exact h1
+      | throw rs1 => exact h1
+
+theorem decGreedyDyn_goodS (S : Nat → Prop) (f : Nat → List Nat → DRes Val × Nat) (size : Nat)
+    (hf : ∀ q rs', q ≤ size → GoodS S size q rs' (f q rs').1) :
+    ∀ (fuel pos : Nat) (rs : List Nat), pos ≤ size → GoodS S size pos rs (decGreedyDyn f fuel pos rs)
+  | 0, pos, rs, hpos => by
+    simp only [decGreedyDyn]
+    exact ExtS.refl _ _ _ _
+  | fuel + 1, pos, rs, hpos => by
+    have h1 := hf pos rs hpos
+    simp only [decGreedyDyn]
+    cases hfp : f pos rs with
+    | mk r p =>
+      rw [hfp] at h1
+      cases r with
+      | ok v pos1 rs1 =>
+        obtain ⟨ha, hb, hc⟩ := h1
+        have h2 := decGreedyDyn_goodS S f size hf fuel pos1 rs1 hb
+        simp only
+        refine GoodS.mono ha hc (bind_goodS _ _ h2 ?_)
+        intro a q rs2 hq
+        exact ⟨Nat.le_refl _, hq, ExtS.refl _ _ _ _⟩
+      | fail rs1 => exact ⟨Nat.le_refl _, hpos, h1⟩
+      | fault => exact h1
+      | throw rs1 => exact h1
+
+theorem decArray_goodS (S : Nat → Prop) (f : Nat → List Nat → DRes Val × Nat) (t : Ty) (cnt size pos : Nat)
+    (rs : List Nat) (hf : ∀ q rs', q ≤ size → GoodS S size q rs' (f q rs').1) (hpos : pos ≤ size) :
+    GoodS S size pos rs (decArray f t cnt size pos rs).1 := by
+  have h := decN_goodS S f size hf cnt pos rs hpos
+  unfold decArray
+  split
+  · cases hdn : decN f cnt pos rs with
+    | mk r p => rw [hdn] at h; cases r <;> exact h
+  · simp only
+    split
+    · exact ExtS.refl _ _ _ _
+    · cases hdn : decN f cnt pos rs with
+      | mk r p => rw [hdn] at h; cases r <;> exact h
+
+/-- the greedy count: `n = size_t(end - pos) / size` elements of `size` bytes fit -/
+theorem greedy_fits (t : Ty) (x : Nat) (h : codecSize t ≥ 0) : x / (codecSize t).toNat * elemSz t ≤ x := by
+  unfold elemSz
+  by_cases hc : codecSize t > 0
+  · rw [if_pos hc]; exact Nat.div_mul_le_self _ _
+  · have h0 : (codecSize t).toNat = 0 := by omega
+    rw [if_neg hc, h0, Nat.div_zero]; omega
+
+theorem memberStep_goodS (S : Nat → Prop) (e : Endian) (all : List Member) (n : String) (t : Ty) (k : MKind)
+    (msize : Nat) (data : Bytes) (pos : Nat) (rs : List Nat) (lens : List (String × Nat))
+    (elem : Nat → List Nat → DRes Val × Nat)
+    (hf : ∀ q rs', q ≤ data.length → GoodS S data.length q rs' (elem q rs').1)
+    (hsz : k = .plain → isSizer n all = true → S (resizeElem n all))
+    (hgr : k = .greedy → codecSize t ≥ 0 → S (elemSz t))
+    (hpos : pos ≤ data.length) :
+    GoodS S data.length pos rs (memberStep e all n t k msize data pos rs lens elem).1 := by
+  cases k with
+  | plain =>
+    cases hs : isSizer n all with
+    | true =>
+      cases hm : memberStep e all n t .plain msize data pos rs lens elem with
+      | mk r p =>
+        rcases memberStep_sizer_inv e all n t msize data pos rs lens elem hs hpos r p hm with
+          hr | ⟨cnt, h1, h2, h3, hr⟩
+        · subst hr; exact ExtS.refl _ _ _ _
+        · have hx : ExtS S data.length pos rs (cnt :: rs) :=
+            ExtS.cons rs _ (hsz rfl hs) (by omega)
+          rcases hr with ⟨_, hr⟩ | ⟨_, lens', hr⟩
+          · subst hr; exact hx
+          · subst hr; exact ⟨h1, h2, hx⟩
+    | false =>
+      unfold memberStep
+      simp only [hs, Bool.false_eq_true, if_false]
+      exact retag_goodS _ _ (hf pos rs hpos)
+  | optional =>
+    unfold memberStep
+    simp only
+    have h1 := decScalar_goodS S e 4 false data pos rs hpos
+    cases hd : decScalar e 4 false data pos rs with
+    | ok disc pos1 rs1 =>
+      rw [hd] at h1
+      obtain ⟨ha, hb, hc⟩ := h1
+      simp only
+      generalize (if cppAlign t > 4 then cppAlign t - 4 else 0) = apad
+      have h2 : GoodS S data.length pos1 rs1
+          (if apad ≠ 0 then advance apad data.length pos1 rs1 else .ok () pos1 rs1) := by
+        split
+        · exact advance_goodS _ _ _ _ _ hb
+        · exact ⟨Nat.le_refl _, hb, ExtS.refl _ _ _ _⟩
+      cases hd2 : (if apad ≠ 0 then advance apad data.length pos1 rs1 else DRes.ok () pos1 rs1) with
+      | ok u pos2 rs2 =>
+        rw [hd2] at h2
+        obtain ⟨ha2, hb2, hc2⟩ := h2
+        simp only
+        refine GoodS.mono ha hc (GoodS.mono ha2 hc2 ?_)
+        split
+        · exact retag_goodS _ _ (hf pos2 rs2 hb2)
+        · generalize (if codecSize t ≥ 0 then (codecSize t).toNat else sizeMax - 1) = adv
+          have h3 := advance_goodS S adv data.length pos2 rs2 hb2
+          cases hd3 : advance adv data.length pos2 rs2 with
+          | ok u3 pos3 rs3 => rw [hd3] at h3; exact h3
+          | fail rs3 => rw [hd3] at h3; exact h3
+          | fault => rw [hd3] at h3; exact h3
+          | throw rs3 => rw [hd3] at h3; exact h3
+      | fail rs2 => rw [hd2] at h2; exact GoodS.mono ha hc h2
+      | fault => rw [hd2] at h2; exact h2
+      | throw rs2 => rw [hd2] at h2; exact GoodS.mono ha hc h2
+    | fail rs1 => rw [hd] at h1; exact h1
+    | fault => rw [hd] at h1; exact h1
+    | throw rs1 => rw [hd] at h1; exact h1
+  | fixed c => exact retag_goodS _ _ (decArray_goodS _ _ _ _ _ _ _ hf hpos)
+  | dyn s sh => exact retag_goodS _ _ (decArray_goodS _ _ _ _ _ _ _ hf hpos)
+  | limited s l =>
+    unfold memberStep
+    simp only
+    have h1 := decArray_goodS S elem t ((lens.lookup n).getD 0) data.length pos rs hf hpos
+    cases hd : decArray elem t ((lens.lookup n).getD 0) data.length pos rs with
+    | mk r p =>
+      rw [hd] at h1
+      cases r with
+      | ok v pos1 rs1 =>
+        obtain ⟨ha, hb, hc⟩ := h1
+        simp only
+        have h3 := advance_goodS S msize data.length pos rs1 hpos
+        refine GoodS.mono (Nat.le_refl _) hc ?_
+        cases hd3 : advance msize data.length pos rs1 with
+        | ok u3 pos3 rs3 => rw [hd3] at h3; exact h3
+        | fail rs3 => rw [hd3] at h3; exact h3
+        | fault => rw [hd3] at h3; exact h3
+        | throw rs3 => rw [hd3] at h3; exact h3
+      | fail rs1 => exact h1
+      | fault => exact h1
+      | throw rs1 => exact h1
+  | greedy =>
+    unfold memberStep
+    simp only
+    split
+    · rename_i hcs
+      have hcnt : remaining data.length pos / (codecSize t).toNat * elemSz t ≤ data.length - pos := by
+        rw [remaining_of_le hpos]
+        exact greedy_fits t _ hcs
+      generalize remaining data.length pos / (codecSize t).toNat = cnt at hcnt
+      have hx : ExtS S data.length pos rs (cnt :: rs) := ExtS.cons rs _ (hgr rfl hcs) hcnt
+      split
+      · exact hx
+      · exact GoodS.mono (Nat.le_refl _) hx (retag_goodS _ _ (decArray_goodS _ _ _ _ _ _ _ hf hpos))
+    · have h1 := decGreedyDyn_goodS S elem data.length hf (data.length + 1) pos rs hpos
+      cases hd : decGreedyDyn elem (data.length + 1) pos rs with
+      | ok vs pos1 rs1 => rw [hd] at h1; exact h1
+      | fail rs1 => rw [hd] at h1; exact h1
+      | fault => rw [hd] at h1; exact h1
+      | throw rs1 => rw [hd] at h1; exact h1
+
+theorem resizeElemsMs_cons (all : List Member) (n : String) (t : Ty) (k : MKind) (r : List Member) (x : Nat) :
+    x ∈ resizeElemsMs all (.mk n t k :: r) ↔
+      (k = .plain ∧ isSizer n all = true ∧ x = resizeElem n all) ∨
+      (k = .greedy ∧ codecSize t ≥ 0 ∧ x = elemSz t) ∨ x ∈ resizeElems t ∨ x ∈ resizeElemsMs all r := by
+  cases k with
+  | plain =>
+    by_cases hs : isSizer n all = true
+    · simp [resizeElemsMs, hs]
+    · simp [resizeElemsMs, hs]
+  | greedy =>
+    by_cases hc : codecSize t ≥ 0
+    · simp [resizeElemsMs, hc]
+    · simp [resizeElemsMs, hc]
+  | _ => simp [resizeElemsMs]
+
+mutual
+  theorem decTy_goodS (S : Nat → Prop) (e : Endian) : (t : Ty) → (∀ x ∈ resizeElems t, S x) →
+      ∀ (data : Bytes) (pos : Nat) (rs : List Nat),
+      pos ≤ data.length → GoodS S data.length pos rs (decTy e t data pos rs).1
+    | .prim p, _, data, pos, rs, hpos => by
+      simp only [decTy]
+      exact bind_goodS _ _ (decScalar_goodS _ _ _ _ _ _ _ hpos)
+        (fun a q r hq => ⟨Nat.le_refl _, hq, ExtS.refl _ _ _ _⟩)
+    | .byte, _, data, pos, rs, hpos => by
+      simp only [decTy]
+      exact bind_goodS _ _ (decScalar_goodS _ _ _ _ _ _ _ hpos)
+        (fun a q r hq => ⟨Nat.le_refl _, hq, ExtS.refl _ _ _ _⟩)
+    | .enum _ _, _, data, pos, rs, hpos => by
+      simp only [decTy]
+      exact bind_goodS _ _ (decScalar_goodS _ _ _ _ _ _ _ hpos)
+        (fun a q r hq => ⟨Nat.le_refl _, hq, ExtS.refl _ _ _ _⟩)
+    | .struct _ ms, hS, data, pos, rs, hpos => by
+      simp only [decTy]
+      exact retag_goodS _ _ (decMs_goodS S e ms ms (by simpa [resizeElems] using hS) _ data pos rs [] hpos)
+    | .union n arms, hS, data, pos, rs, hpos => by
+      simp only [decTy]
+      generalize (if (PL.nodeTy (.union n arms)).align > PL.discSize
+        then (PL.nodeTy (.union n arms)).align - PL.discSize else 0) = discpad
+      generalize (PL.nodeTy (.union n arms)).size - PL.discSize - discpad = tail
+      have h1 := decScalar_goodS S e 4 false data pos rs hpos
+      cases hd : decScalar e 4 false data pos rs with
+      | ok disc pos1 rs1 =>
+        rw [hd] at h1
+        obtain ⟨ha, hb, hc⟩ := h1
+        simp only
+        have h2 : GoodS S data.length pos1 rs1
+            (if discpad ≠ 0 then advance discpad data.length pos1 rs1 else .ok () pos1 rs1) := by
+          split
+          · exact advance_goodS _ _ _ _ _ hb
+          · exact ⟨Nat.le_refl _, hb, ExtS.refl _ _ _ _⟩
+        refine GoodS.mono ha hc ?_
+        cases hd2 : (if discpad ≠ 0 then advance discpad data.length pos1 rs1 else DRes.ok () pos1 rs1) with
+        | ok u pos2 rs2 =>
+          rw [hd2] at h2
+          obtain ⟨ha2, hb2, hc2⟩ := h2
+          simp only
+          refine GoodS.mono ha2 hc2 ?_
+          have h3 := decArms_goodS S e arms (by simpa [resizeElems] using hS) disc data pos2 rs2 0 hb2
+          cases hd3 : decArms e arms disc data pos2 rs2 0 with
+          | ok iv pos3 rs3 =>
+            rw [hd3] at h3
+            obtain ⟨ha3, hb3, hc3⟩ := h3
+            obtain ⟨idx, v⟩ := iv
+            simp only
+            have h4 := advance_goodS S tail data.length pos2 rs3 hb2
+            refine GoodS.mono (Nat.le_refl _) hc3 ?_
+            cases hd4 : advance tail data.length pos2 rs3 with
+            | ok u4 pos4 rs4 => rw [hd4] at h4; exact h4
+            | fail rs4 => rw [hd4] at h4; exact h4
+            | fault => rw [hd4] at h4; exact h4
+            | throw rs4 => rw [hd4] at h4; exact h4
+          | fail rs3 => rw [hd3] at h3; exact h3
+          | fault => rw [hd3] at h3; exact h3
+          | throw rs3 => rw [hd3] at h3; exact h3
+        | fail rs2 => rw [hd2] at h2; exact h2
+        | fault => rw [hd2] at h2; exact h2
+        | throw rs2 => rw [hd2] at h2; exact h2
+      | fail rs1 => rw [hd] at h1; exact h1
+      | fault => rw [hd] at h1; exact h1
+      | throw rs1 => rw [hd] at h1; exact h1
+  theorem decArms_goodS (S : Nat → Prop) (e : Endian) : (arms : List Arm) → (∀ x ∈ resizeElemsArms arms, S x) →
+      ∀ (disc : Int) (data : Bytes) (pos : Nat)
+      (rs : List Nat) (idx : Nat), pos ≤ data.length →
+      GoodS S data.length pos rs (decArms e arms disc data pos rs idx)
+    | [], _, disc, data, pos, rs, idx, hpos => by
+      simp only [decArms]
+      exact ExtS.refl _ _ _ _
+    | .mk _ d t :: r, hS, disc, data, pos, rs, idx, hpos => by
+      simp only [decArms]
+      split
+      · have h1 := decTy_goodS S e t (fun x hx => hS x (by simp [resizeElemsArms, hx])) data pos rs hpos
+        cases hd : decTy e t data pos rs with
+        | mk x p => rw [hd] at h1; cases x <;> exact h1
+      · exact decArms_goodS S e r (fun x hx => hS x (by simp [resizeElemsArms, hx])) disc data pos rs (idx + 1) hpos
+  theorem decMs_goodS (S : Nat → Prop) (e : Endian) (all : List Member) : (ms : List Member) →
+      (∀ x ∈ resizeElemsMs all ms, S x) →
+      ∀ (ls : List (Nat × Nat × Int)) (data : Bytes) (pos : Nat) (rs : List Nat)
+        (lens : List (String × Nat)), pos ≤ data.length →
+      GoodS S data.length pos rs (decMs e all ms ls data pos rs lens).1
+    | [], _, ls, data, pos, rs, lens, hpos => by
+      rw [decMs_nil]
+      exact ⟨Nat.le_refl _, hpos, ExtS.refl _ _ _ _⟩
+    | .mk n t k :: r, _, [], data, pos, rs, lens, hpos => by
+      rw [decMs_nil_layout]
+      exact ⟨Nat.le_refl _, hpos, ExtS.refl _ _ _ _⟩
+    | .mk n t k :: r, hS, (msize, a, padding) :: ls, data, pos, rs, lens, hpos => by
+      rw [decMs_cons]
+      have h1 := memberStep_goodS S e all n t k msize data pos rs lens (fun q rs' => decTy e t data q rs')
+        (fun q rs' hq => decTy_goodS S e t
+          (fun x hx => hS x ((resizeElemsMs_cons all n t k r x).2 (Or.inr (Or.inr (Or.inl hx))))) data q rs' hq)
+        (fun hk hs => hS _ ((resizeElemsMs_cons all n t k r _).2 (Or.inl ⟨hk, hs, rfl⟩)))
+        (fun hk hc => hS _ ((resizeElemsMs_cons all n t k r _).2 (Or.inr (Or.inl ⟨hk, hc, rfl⟩))))
+        hpos
+      cases hd : memberStep e all n t k msize data pos rs lens (fun q rs' => decTy e t data q rs') with
+      | mk x p =>
+        rw [hd] at h1
+        cases x with
+        | ok vl pos1 rs1 =>
+          obtain ⟨v, lens'⟩ := vl
+          obtain ⟨ha, hb, hc⟩ := h1
+          simp only
+          have h2 := padStep_goodS S padding data.length pos1 rs1 hb
+          refine GoodS.mono ha hc ?_
+          cases hd2 : padStep padding data.length pos1 rs1 with
+          | ok u pos2 rs2 =>
+            rw [hd2] at h2
+            obtain ⟨ha2, hb2, hc2⟩ := h2
+            simp only
+            refine GoodS.mono ha2 hc2 ?_
+            have h3 := decMs_goodS S e all r
+              (fun x hx => hS x ((resizeElemsMs_cons all n t k r x).2 (Or.inr (Or.inr (Or.inr hx)))))
+              ls data pos2 rs2 lens' hb2
+            cases hd3 : decMs e all r ls data pos2 rs2 lens' with
+            | mk y p3 => rw [hd3] at h3; cases y <;> exact h3
+          | fail rs2 => rw [hd2] at h2; exact h2
+          | fault => rw [hd2] at h2; exact h2
+          | throw rs2 => rw [hd2] at h2; exact h2
+        | fail rs1 => exact h1
+        | fault => exact h1
+        | throw rs1 => exact h1
+end
+
+/-! ### the stronger property theorems -/
+
+/-- GLOBAL, any position, any outcome: each new request `n` comes with an element size `el` of the schema tree
+    (`resizeElem` of a counter / `codec_traits<T>::size` of a greedy array of fixed-size elements) such that
+    `n * el` bytes are available between the start position of the call and the end of the input -/
+theorem decTy_resizes_fit (e : Endian) (t : Ty) (data : Bytes) (pos : Nat) (rs : List Nat)
+    (hpos : pos ≤ data.length) :
+    ∃ new, DRes.resizes rs (Cpp.decTy e t data pos rs).1 = new ++ rs ∧
+      ∀ n ∈ new, ∃ el ∈ resizeElems t, n * el ≤ data.length - pos := by
+  have h := decTy_goodS (· ∈ resizeElems t) e t (fun x hx => hx) data pos rs hpos
+  cases hd : (decTy e t data pos rs).1 with
+  | ok v pos' rs' => rw [hd] at h; exact h.2.2
+  | fail rs' => rw [hd] at h; exact h
+  | fault => rw [hd] at h; exact h.elim
+  | throw rs' => rw [hd] at h; exact h
+
+/-- GLOBAL: every `resize(n)` requested by `message::decode<E>(data, size)`, whatever the outcome - accepted, rejected
+    or the length_error/bad_alloc exception - is a request for `n` elements of `el` wire bytes each that fit in the
+    input, `n * el ≤ size`, for an element size `el` the schema's arrays have -/
+theorem decode_resizes_fit (t : Ty) (data : Bytes) (e : Endian) :
+    ∀ n ∈ (Cpp.decode t data e).resizes, ∃ el ∈ resizeElems t, n * el ≤ data.length := by
+  obtain ⟨new, hnew, hb⟩ := decTy_resizes_fit e t data 0 [] (Nat.zero_le _)
+  have key : (Cpp.decode t data e).resizes = new := by
+    unfold decode
+    cases hd : (decTy e t data 0 []).1 with
+    | ok v pos rs =>
+      rw [hd] at hnew
+      simp only [DRes.resizes, List.append_nil] at hnew
+      simp only; split <;> simpa [Outcome.resizes] using hnew
+    | fail rs => rw [hd] at hnew; simpa [Outcome.resizes, DRes.resizes] using hnew
+    | fault => rw [hd] at hnew; simpa [Outcome.resizes, DRes.resizes] using hnew
+    | throw rs => rw [hd] at hnew; simpa [Outcome.resizes, DRes.resizes] using hnew
+  rw [key]
+  intro n hn
+  obtain ⟨el, h1, h2⟩ := hb n hn
+  exact ⟨el, h1, by omega⟩
+
+/- every element size is at least 1 -/
+mutual
+  theorem one_le_resizeElems : (t : Ty) → ∀ el ∈ resizeElems t, 1 ≤ el
+    | .prim _, el, h => by simp [resizeElems] at h
+    | .byte, el, h => by simp [resizeElems] at h
+    | .enum _ _, el, h => by simp [resizeElems] at h
+    | .struct _ ms, el, h => one_le_resizeElemsMs ms ms el (by simpa [resizeElems] using h)
+    | .union _ arms, el, h => one_le_resizeElemsArms arms el (by simpa [resizeElems] using h)
+  theorem one_le_resizeElemsMs (all : List Member) : (ms : List Member) → ∀ el ∈ resizeElemsMs all ms, 1 ≤ el
+    | [], el, h => by simp [resizeElemsMs] at h
+    | .mk n t k :: r, el, h => by
+      rcases (resizeElemsMs_cons all n t k r el).1 h with ⟨_, _, rfl⟩ | ⟨_, _, rfl⟩ | h | h
+      · exact one_le_resizeElem n all
+      · exact one_le_elemSz t
+      · exact one_le_resizeElems t el h
+      · exact one_le_resizeElemsMs all r el h
+  theorem one_le_resizeElemsArms : (arms : List Arm) → ∀ el ∈ resizeElemsArms arms, 1 ≤ el
+    | [], el, h => by simp [resizeElemsArms] at h
+    | .mk _ _ t :: r, el, h => by
+      simp only [resizeElemsArms, List.mem_append] at h
+      rcases h with h | h
+      · exact one_le_resizeElems t el h
+      · exact one_le_resizeElemsArms r el h
+end
+
+/-- GLOBAL, uniform form: if every array of the schema that the decoder resizes (arrays bound to a counter, greedy
+    arrays of fixed-size elements; at any depth) has elements of at least `w` wire bytes, then every `resize(n)`
+    requested while decoding, whatever the outcome, has `n * w ≤ size` of the input.  With `w = 1` the hypothesis
+    always holds (`one_le_resizeElems`) and this is `decode_resizes_bounded`. -/
+theorem decode_resizes_fit_min (w : Nat) (t : Ty) (data : Bytes) (e : Endian)
+    (hw : ∀ el ∈ resizeElems t, w ≤ el) :
+    ∀ n ∈ (Cpp.decode t data e).resizes, n * w ≤ data.length := by
+  intro n hn
+  obtain ⟨el, h1, h2⟩ := decode_resizes_fit t data e n hn
+  exact Nat.le_trans (Nat.mul_le_mul_left n (hw el h1)) h2
+
 end Prophy.Cpp
 
 #print axioms Prophy.Cpp.decTy_safe
 #print axioms Prophy.Cpp.decode_no_fault
 #print axioms Prophy.Cpp.decode_resizes_bounded
+#print axioms Prophy.Cpp.memberStep_sizer_inv
+#print axioms Prophy.Cpp.memberStep_sizer_ok_fits
+#print axioms Prophy.Cpp.memberStep_sizer_throw_fits
+#print axioms Prophy.Cpp.decMs_sizer_ok_fits
+#print axioms Prophy.Cpp.decTy_resizes_fit
+#print axioms Prophy.Cpp.decode_resizes_fit
+#print axioms Prophy.Cpp.decode_resizes_fit_min
